@@ -2,6 +2,7 @@
 from vlib.core import Case, hx
 
 ID = "C10"
+NEEDS_CLI = True
 RULE = ("op msg.hash <bytes>: every length 0..1100 (quick: 0..300 + boundaries) with random content, "
         "lengths 10^k-1, 10^k, 10^k+1, all 256 single-byte messages, non-UTF-8 content; "
         "non-trivial = distinct message; judge recomputes Keccak-256 of the EIP-191 pre-image independently of the model's preimage function")
@@ -26,7 +27,28 @@ def gen(rng, tier):
         # content that looks like a length field / prefix, and invalid UTF-8
         m = rng.choice([b"12", b"\x19Ethereum Signed Message:\n", b"\xff\xfe\x80", b"0", b"\n"]) * rng.randint(1, 5)
         cases.append(Case("msg.hash " + hx(m), tags=("tricky",)))
+    # the command-line route (`hash message`), stdin and file, including inputs beyond 10^6 bytes
+    from vlib import cli as _cli
+    sizes = [0, 1, 9, 10, 99, 100, 999, 1000, 9999, 10000, 65535, 65536, 99999, 100000, 999999, 1000000, 1000001, 1000003, 1048575, 1048576, 1048577, 2000003]
+    if tier == "thorough":
+        sizes += [9999999, 10000000, 10000001, 16777215, 16777216, 16777217]
+    for n in sizes:
+        for vf in (False, True):
+            cases.append(Case("cli.hash_message_rep %d %d" % (n, rng.randrange(256)), tags=("cli", "stdin" if not vf else "file", "len:%d-digit" % len(str(n))), runner="cli", meta={"via_file": vf}))
+    for n in (0, 1, 12, 300):
+        cases.append(Case("cli.hash_message " + hx(bytes(rng.getrandbits(8) for _ in range(n))), tags=("cli",), runner="cli", meta={"via_file": rng.random() < 0.5}))
     return cases
+
+
+run_cli = None
+
+
+def _run_cli(case):
+    from vlib import cli as _cli
+    return _cli.run_cli(case)
+
+
+run_cli = _run_cli
 
 
 def shrink_candidates(line):
